@@ -5,6 +5,7 @@
 
 from __future__ import annotations
 
+import contextlib
 import copy
 import hashlib
 import json
@@ -515,6 +516,57 @@ def _result_summary(value):
     return value
 
 
+class FakeSpan:
+    """In-memory stand-in for an OpenTelemetry span (the SDK is not installed): records into the history."""
+
+    def __init__(self, sim, sid, name):
+        self.sim, self.sid, self.name = sim, sid, name
+        self.ended = 0
+
+    def set_attribute(self, key, value):
+        self.sim.record("span_attr", sid=self.sid, key=key, value=value if isinstance(value, (str, int, float, bool, type(None))) else repr(value))
+
+    def end(self, end_time=None):
+        self.ended += 1
+        self.sim.record("span_end", sid=self.sid, n=self.ended)
+
+    def is_recording(self):
+        return not self.ended
+
+    def __enter__(self):
+        return self
+
+    def __exit__(self, *a):
+        self.end()
+        return False
+
+
+class FakeTracer:
+    def __init__(self, sim):
+        self.sim = sim
+        self.n = 0
+
+    def start_span(self, name, *a, **kw):
+        self.n += 1
+        self.sim.record("span_start", sid=self.n, name=name)
+        return FakeSpan(self.sim, self.n, name)
+
+
+@contextlib.contextmanager
+def _tracing(sim, case):
+    """case['tracing']: route the RunEngine's run spans (module attribute `bluesky.run_engine.tracer`, looked up
+    at call time by _open_run) to an in-memory recorder.  Per-message decorator spans stay on the no-op proxy."""
+    if not case.get("tracing"):
+        yield
+        return
+    from unittest import mock
+
+    import bluesky.run_engine as bre
+
+    with mock.patch.object(bre, "tracer", FakeTracer(sim)):
+        yield
+
+
 def run_case(case, keep_objects=True) -> Result:
     res = Result()
     res.case = case
@@ -526,7 +578,7 @@ def run_case(case, keep_objects=True) -> Result:
         max_time=simcfg.get("max_time", 1e6),
     )
     res.sim = sim
-    with installed(sim):
+    with installed(sim), _tracing(sim, case):
         try:
             drv = Driver(case, sim, res)
             res.driver = drv
